@@ -7,6 +7,18 @@ ROOT = os.path.dirname(os.path.dirname(os.path.abspath(__file__)))
 
 # id -> (technique, level text, level note, design ref)
 CLAIMED = {
+ "C01": ("forward dataflow over go/cfg of the writers' byte accounting; SSA check of ReadLine fragment joining; constant agreement of record markers and Phred offsets between writer and reader",
+         "Decides, on every path, that each emitting call's byte count reaches the returned count at every success return (fasta/fastq writers), that both readers join ReadLine fragments before classifying and never retain bufio's buffer, and that writer and reader agree on the record-marker and Phred-offset constants. These are necessary conditions of the round trip and of the byte-count clause; equality of the parsed records is value-level and not decided.",
+         "fmt/io writers report the bytes written; returns inside `if err != nil` are error exits", "DESIGN.md §2.C/D/J, §4/C01"),
+ "C02": ("AST+types rule on the 1-based/0-based conversion pair at every parse and format site of package gff; forward dataflow over go/cfg of the bed/gff writers' byte accounting (incl. deferred closures)",
+         "Decides that every start coordinate parsed from GFF text goes through feat.OneToZero and every start written goes through feat.ZeroToOne, ends through neither (all paths, all sites), and that the bed/gff writers' returned count includes every emitted byte on every success path. Field-by-field equality after a round trip is not decided.",
+         "start/end fields are those the Start()/End() methods return; feat.OneToZero/ZeroToOne bodies are trusted", "DESIGN.md §2.D/E, §4/C02"),
+ "C03": ("SSA dominance analysis of field-count guards before constant column indices (with helper summaries and entry bounds); call-graph reachability of non-error panics from functions deferring a recover-to-error converter, with call-site exclusion of `param == const` preconditions",
+         "Decides for all inputs that no constant column access in the BED/GFF parsers can be out of range, and that every explicit panic reachable from a parser that converts panics to errors carries an error value (or its triggering argument value is excluded at the call site). Termination, nil dereferences and type assertions are not decided.",
+         "vectors come from bytes|strings.Split*/Fields; runtime panics other than field indexing are out of scope", "DESIGN.md §2.A/B, §4/C03"),
+ "C04": ("edge-sensitive forward search over the SSA CFG along branches consistent with err == io.EOF; taint flow from ReadBytes to splitters through trims; SSA shape check of ReadLine fragment joining",
+         "Decides that no line reader can return past the bytes delivered together with io.EOF without looking at them (final record never dropped), that every BED/GFF line is CR/whitespace-trimmed before splitting, and that FASTA/FASTQ readers join long-line fragments. Record equality under re-wrapping is not decided.",
+         "bufio.Reader semantics of ReadBytes/ReadLine", "DESIGN.md §2.C, §4/C04"),
  "C17": ("constant-table consistency check over go/types constant values of the built-in alphabet definitions (AST + types)",
          "Decides, for the seven built-in alphabets, every clause the property states about their *definitions* (distinct ASCII letters, involutive case-preserving pairing closed over the alphabet, 3-minus-index complement rule, gap at index 0) from the constants in the source. It does not decide that the constructors build the tables the definitions describe.",
          "go/types constant evaluation; constructors interpret their arguments positionally", "DESIGN.md §2.J, §4/C17"),
